@@ -1,6 +1,7 @@
 package main
 
 import (
+	"strconv"
 	"bytes"
 	"fmt"
 	"math/rand"
@@ -53,7 +54,7 @@ func runC01(c *ctx, r *Report) error {
 		nMut = 40000
 	}
 	repl := c01Replacements()
-	r.Rule = fmt.Sprintf("(1) node kind × tag × position: at EVERY node of the three base workflows (all sections of the syntax), of a local action.yml, of a reusable workflow and of actionlint.yaml, the node is replaced by each of %d replacements (mapping, empty mapping, sequence, nested, merge key, null, explicit !!float nan/.nan/.inf/1e999/-0/abc, !!int 0x/huge/abc, !!bool, !!binary, !custom, !!timestamp, broken placeholders, NUL, 70 kB scalar, deep parenthesis / property / JSON nesting) and keys are replaced by non-string nodes; an alias (with its anchor elsewhere) is planted at every position, bare and one / two levels inside a planted sequence or mapping, and as a mapping key; (2) %d random byte-level mutations (flip, insert special bytes, truncate, duplicate lines) of the four files incl. invalid UTF-8; (3) deep nesting and 64 KiB inputs in a child process; every case must end in diagnostics or a fatal error (exit 0/1/3 through Command.Main for a sample), never a panic, fatal runtime error or a 20 s timeout; non-trivial = distinct mutated sources", len(repl), nMut)
+	r.Rule = fmt.Sprintf("(1) node kind × tag × position: at EVERY node of the three base workflows (all sections of the syntax), of a local action.yml, of a reusable workflow and of actionlint.yaml, the node is replaced by each of %d replacements (mapping, empty mapping, sequence, nested, merge key, null, explicit !!float nan/.nan/.inf/1e999/-0/abc, !!int 0x/huge/abc, !!bool, !!binary, !custom, !!timestamp, broken placeholders, NUL, 70 kB scalar, deep parenthesis / property / JSON nesting) and keys are replaced by non-string nodes; an alias (with its anchor elsewhere) is planted at every position, bare and one / two levels inside a planted sequence or mapping, and as a mapping key; (2) %d random byte-level mutations (flip, insert special bytes, truncate, duplicate lines) of the four files incl. invalid UTF-8; (3) deep nesting and 64 KiB inputs in a child process; (4) 16 + 15 spellings of local workflow / action specs (well-formed, @ref, missing, directory, unparseable, placeholder, path tricks), each used twice in each of two files linted together; every case must end in diagnostics or a fatal error (exit 0/1/3 through Command.Main for a sample), never a panic, fatal runtime error or a 20 s timeout; non-trivial = distinct mutated sources", len(repl), nMut)
 	tmp, err := os.MkdirTemp("", "verif-c01-")
 	if err != nil {
 		return err
@@ -271,6 +272,55 @@ func runC01(c *ctx, r *Report) error {
 		}
 	}
 	restore()
+	// (4) references to local callees: every spelling of a `uses:` spec (well-formed, with @ref, missing, a directory,
+	// unparseable, with a placeholder, path tricks), each used by TWO jobs / TWO steps of one file and by a second file
+	// linted in the same call (the metadata caches see every spec several times, hit and miss, concurrently)
+	{
+		restore()
+		os.MkdirAll(filepath.Join(root, ".github", "workflows", "adir.yml"), 0o755)
+		write(".github/workflows/unparseable.yml", "on:\n  workflow_call:\n    inputs: [a, b]\njobs: {}\n")
+		write(".github/workflows/notyaml.yml", "on: [unclosed\n")
+		os.MkdirAll(filepath.Join(root, "brokenact"), 0o755)
+		write("brokenact/action.yml", "name: [unclosed\n")
+		os.MkdirAll(filepath.Join(root, "emptyact"), 0o755)
+		write("emptyact/action.yml", "")
+		wfSpecs := []string{"./.github/workflows/reusable.yml", "./.github/workflows/reusable.yml@main", "./.github/workflows/missing.yml", "./.github/workflows/missing.yml@v1",
+			"./.github/workflows/adir.yml", "./.github/workflows/unparseable.yml", "./.github/workflows/notyaml.yml", "./", ".", "./.github/workflows/${{ matrix.x }}.yml",
+			"./../repo/.github/workflows/reusable.yml", "./.github/workflows/REUSABLE.yml", "./.github//workflows/reusable.yml", "owner/repo/.github/workflows/x.yml@v1", "./.github/workflows/reusable.yml@", "@"}
+		actSpecs := []string{"./act", "./act@v1", "./missingact", "./brokenact", "./emptyact", "./", ".", "./act/", "./act/../act", "./${{ matrix.x }}", "./ACT", "docker://alpine", "actions/checkout@v4", "./act@", "@"}
+		for _, kind := range []string{"workflow", "action"} {
+			specs := wfSpecs
+			if kind == "action" {
+				specs = actSpecs
+			}
+			for _, spec := range specs {
+				var src string
+				if kind == "workflow" {
+					src = "on: push\njobs:\n  a:\n    uses: " + spec + "\n  b:\n    uses: " + spec + "\n    with:\n      name: x\n  c:\n    needs: [a, b]\n    runs-on: ubuntu-latest\n    steps:\n      - run: echo ${{ needs.a.outputs.o }}\n"
+				} else {
+					src = "on: push\njobs:\n  a:\n    runs-on: ubuntu-latest\n    steps:\n      - uses: " + spec + "\n        id: s\n      - uses: " + spec + "\n        with:\n          x: 1\n      - run: echo ${{ steps.s.outputs.o }}\n"
+				}
+				write(".github/workflows/caller.yml", src)
+				write(".github/workflows/caller2.yml", src)
+				what := kind + " spec " + strconv.Quote(spec) + " used twice in each of two files"
+				r.Evaluations++
+				r.nontrivial("spec:" + kind + spec)
+				r.hist("callee-spec:" + kind)
+				pmsg, to := guarded(20*time.Second, func() {
+					l, err := actionlint.NewLinter(nopWriter{}, &actionlint.LinterOptions{Shellcheck: "", Pyflakes: ""})
+					if err != nil {
+						return
+					}
+					l.LintFiles([]string{filepath.Join(".github", "workflows", "caller.yml"), filepath.Join(".github", "workflows", "caller2.yml")}, nil)
+				})
+				if pmsg != "" || to {
+					report("callee-spec", what, src, pmsg, to)
+				}
+			}
+		}
+		os.Remove(filepath.Join(root, ".github", "workflows", "caller2.yml"))
+		restore()
+	}
 	// (3) deep / large inputs in a child process (a fatal runtime error cannot be recovered in-process)
 	self, _ := os.Executable()
 	deep := map[string]string{
